@@ -232,7 +232,7 @@ func (t *Tree) Len() int { return t.Count }
 // Contains returns whether a Comparable is in the bounds of the tree. If no bounding has
 // been constructed Contains returns true.
 func (t *Tree) Contains(c Comparable) bool {
-	if t.Root.Bounding == nil {
+	if t.Root == nil || t.Root.Bounding == nil {
 		return true
 	}
 	return t.Root.Contains(c)
